@@ -159,7 +159,6 @@ RECURSIVE SumLens(_, _)
 SumLens(ord, k) == IF k = 0 THEN 0 ELSE SerLen(ord[k]) + SumLens(ord, k - 1)
 VarLen(msg) == LET ord == Order(msg) IN SumLens(ord, Len(ord))
 FlatLen(msg) == VarLen(msg) + msg.S
-IndexIn(ord, wi) == CHOOSE k \in 1..Len(ord) : ord[k].wi = wi
 RECURSIVE StartAcc(_, _, _, _)
 StartAcc(ord, k, off, f) == IF k > Len(ord) THEN f ELSE StartAcc(ord, k + 1, off + SerLen(ord[k]), (ord[k].wi :> off) @@ f)
 StartPosOf(ord) == StartAcc(ord, 1, 0, <<>>)          \* wi -> where the field's bytes start in the flat serialization
@@ -186,7 +185,6 @@ FlatIds(msg) == IdsOf(SerPieces(msg), 1, <<>>)
 (* ------------------------------------------------------------------ *)
 (* Deserialize                                                         *)
 (* ------------------------------------------------------------------ *)
-BufKinds == {"buf", "abuf", "str", "arr", "arrm", "idx", "base", "fbuf"}
 \* is the leaf (an array element's field) processed at all?  size() = _len / sizeof(T)
 ElemCount(L, W) == W[L.dep] \div L.pes
 \* one process_field() call of DeserializerIOV for the leaf L whose wire word is w
